@@ -176,6 +176,34 @@ CLAIMED['C10'] = dict(
    technique="Coq proof (counting lemma by induction over flipped components, invariant by induction over step histories) + vm_compute correspondence",
    ref="DESIGN.md section 3, C10")
 
+WIRE_NOTE = COMMON_NOTE + ("Mutable Python objects (generators, proposal copies, annealers) are cells of a heap; what a chain does is a program of "
+             "primitive reads/writes on the cells it references. That real chain code touches only objects reachable from the chain is a "
+             "premise, checked behaviourally. ")
+CLAIMED['C07'] = dict(
+   text="Partial by nature (OS process pools enter only through map semantics). Theorems about the object-graph model: if every chain's "
+        "program stays within cells reachable from that chain and no cell is reachable from two chains, then serial evaluation in ANY "
+        "order and evaluation on copies in ANY order give every chain the output and final cells it has when run alone (induction over "
+        "the schedule with a frame and a locality lemma), and nothing outside a chain's cells - another chain's start, proposals, "
+        "generator - influences it; the sampler constructors allocate disjoint footprints and wire every chain only to its own cells; "
+        "the code as it was (one annealer for all chains) is refuted (serial vs copy, order dependence). Tie: the real object graph "
+        "(generator/annealer/proposal copies per chain, generator of every drawing site, scan for mutable objects reachable from two "
+        "chains) against the constructed graph under vm_compute; direct: per-chain histories under seven map implementations and real "
+        "multiprocessing pools (thorough) against the built-in map, and perturbation of one chain's start.",
+   note=WIRE_NOTE, technique="Coq proof (frame/locality lemmas, induction over evaluation schedules, arithmetic disjointness of allocations) + vm_compute correspondence of the object graph",
+   ref="DESIGN.md section 3, C07")
+CLAIMED['C04'] = dict(
+   text="Partial by nature (bit-reproducibility of numpy/scipy/CPython across processes is sampled, not modelled). Theorems about the wiring "
+        "model: every random decision of chain i (acceptance on every level, swaps, every constituent's jump, births and in-model jumps of "
+        "transdimensional proposals) is drawn from the generator spawned from the sampler's seed with index i; different chains use "
+        "different streams; a chain's output depends only on the cells it is wired to, whatever else differs in the process; the default "
+        "proposal's parameter tuple is the order-preserving filter of the sampler's parameters, a function of the covered SET only. Tie: "
+        "generator identity of every drawing site (incl. the Generator object actually drawn from) and the seed sequence "
+        "(entropy, spawn key) of every chain against the model under vm_compute, also for proposal instances that drew numbers before the "
+        "sampler got them; direct: every configuration rebuilt and rerun in 4-8 fresh interpreters differing in PYTHONHASHSEED, ambient "
+        "numpy/random seeds, unrelated entropy-seeded objects and samplers built first, and pool; SHA-256 of all outputs must agree.",
+   note=WIRE_NOTE, technique="Coq proof (provenance and locality on the wiring model, list lemmas for the default-proposal order) + vm_compute correspondence + subprocess matrix",
+   ref="DESIGN.md section 3, C04")
+
 PENDING_REASON = "not yet claimed: model/theorems for this property are still being built (see DESIGN.md section 3); nothing is asserted about it"
 
 def main():
